@@ -119,6 +119,15 @@ func goParseOptions(b []byte) (string, []tlv) {
 	return "ok " + renderTlvs(smgpMap(m)), smgpMap(m)
 }
 
+// smgpLenAgrees: Options.Len() is the length of what Serialize() emits, also for values too long for the length field
+func smgpLenAgrees(l []tlv) (int, int) {
+	m := smgp.Options{}
+	for _, e := range l {
+		m[smgp.Tag(e.tag)] = smgp.NewOption(smgp.Tag(e.tag), e.val)
+	}
+	return m.Len(), len(m.Serialize())
+}
+
 func serializeBoth(l []tlv) (smppB, smgpB []byte, panicked string) {
 	o := Guard(func() {
 		m := smpp.TLVs{}
@@ -195,6 +204,9 @@ func runC16(res *Result, d *Driver, g *Rng, tier string) {
 		add(op, canonEncoded(sb, len(sb)))
 		if !bytes.Equal(sortedTriplets(sb), sortedTriplets(gb)) {
 			res.Violate("C16.containers-disagree", "smpp.TLVs.Bytes and smgp.Options.Serialize differ on the same set", []string{op})
+		}
+		if ln, emitted := smgpLenAgrees(l); ln != emitted {
+			res.Violate("C16.length-field-mismatch:Options.Len", fmt.Sprintf("smgp.Options.Len() = %d but Serialize() emits %d octets (longest value %s octets)", ln, emitted, maxLenStr(l)), []string{op})
 		}
 		// emitted length field must agree with the emitted value, whatever the length
 		if !tripletsConsistent(sb) {
